@@ -1,9 +1,10 @@
 #!/bin/sh
 # Runs the repository's pinned suite (guard off; there are no hooks) and compares with BASELINE.json's stable set.
 # usage: tools/suite.sh [repo_dir]
+# The package is installed in /venv as an editable install of /repo/src: PYTHONPATH makes the suite import the tree under test.
 R="${1:-/repo}"
 OUT=$(mktemp /tmp/eql-junit.XXXXXX.xml)
-cd "$R" && /venv/bin/python -m pytest -q -p no:cacheprovider --timeout=900 --continue-on-collection-errors --junitxml="$OUT" >/dev/null 2>&1
+cd "$R" && PYTHONPATH="$R/src" /venv/bin/python -m pytest -q -p no:cacheprovider --timeout=900 --continue-on-collection-errors --junitxml="$OUT" >/dev/null 2>&1
 /venv/bin/python - "$OUT" <<'P'
 import json,sys,xml.etree.ElementTree as ET
 base=set(json.load(open('/root/.vp/BASELINE.json'))['stable_pass'])
